@@ -50,6 +50,7 @@ type c14Res struct {
 	Out     string   `json:"out"`
 	IP      string   `json:"ip"`
 	RP      bool     `json:"rp"`
+	Is4     bool     `json:"is4"`
 	Err     string   `json:"err"`
 	Contain [][2]int `json:"contain"`
 	// conc
@@ -106,6 +107,7 @@ func c14Record(c *c14Cfg, p *PhantomIP, err error) c14Res {
 	r.Out = "ok"
 	r.IP = hex.EncodeToString(*p.IP())
 	r.RP = p.SupportRandomPort()
+	r.Is4 = p.IP().To4() != nil
 	r.Contain = c14Contain(c, *p.IP())
 	return r
 }
@@ -116,9 +118,15 @@ func c14Select(c *c14Cfg, seed []byte, lv uint, v6 bool) (r c14Res) {
 			r = c14Res{Out: "panic", Err: fmt.Sprint(e)}
 		}
 	}()
-	sel := &PhantomIPSelector{Networks: map[uint]*SubnetConfig{}}
+	// generation 7 is the one asked for; another generation is always configured next to it
+	one := uint32(1)
+	sel := &PhantomIPSelector{Networks: map[uint]*SubnetConfig{
+		9: {WeightedSubnets: []*pb.PhantomSubnets{{Weight: &one, Subnets: []string{"10.0.0.0/8", "fd00::/8"}}}},
+	}}
 	if c != nil {
 		sel.Networks[7] = &SubnetConfig{WeightedSubnets: c14Groups(c)}
+	} else if len(seed) > 0 && seed[0]&1 == 1 {
+		sel.RemoveGeneration(7) // leaves an explicit nil entry
 	}
 	p, err := sel.Select(seed, 7, lv, v6)
 	return c14Record(c, p, err)
